@@ -6,6 +6,12 @@ import A2Verif.Lemmas.FsProdosOps
 import A2Verif.Lemmas.FsProdosLockPath
 import A2Verif.Lemmas.FsProdosRetype
 import A2Verif.Lemmas.FsProdosRun
+import A2Verif.Lemmas.FsProdosHist
+import A2Verif.Props.C02
+import A2Verif.Props.C03
+import A2Verif.Props.C04
+import A2Verif.Props.C05
+import A2Verif.Props.C19
 import A2Verif.Model.Read.ProdosT
 import A2Verif.Model.VolSpec
 /-!
@@ -413,19 +419,139 @@ theorem prodos_delete_refines {d : Disk} (hs : SInv d) (path nm : Bytes)
     (hnv : NotVol (volName (hdrOf d.raw)) path) :
     ∃ res d1 d4 v v4, delete path repaired d = (res, d1) ∧ d1.flush = (.ok (), d4) ∧ SInv d4 ∧
       Read.ProdosT.read d.raw = .ok v ∧ Read.ProdosT.read d4.raw = .ok v4 ∧
-      stepOk prodosParams v (.delete (upper nm)) (match res with | .ok _ => true | .error _ => false) v4 = true :=
+      stepOk prodosParams v (.delete (upper nm)) (match res with | .ok _ => true | .error _ => false) v4 = true ∧
+      v4.label = v.label :=
   delete_refines hs path nm hnodes hnm hnv
 
 /-- the same for a simple relative name (no `/`, 1 to 15 characters): the abstract operation is `delete` of the upper-cased name -/
 theorem prodos_delete_refines_name {d : Disk} (hs : SInv d) (name : Bytes) (hne : name ≠ []) (hns : 47 ∉ name) (hl : name.length ≤ 15) :
     ∃ res d1 d4 v v4, delete name repaired d = (res, d1) ∧ d1.flush = (.ok (), d4) ∧ SInv d4 ∧
       Read.ProdosT.read d.raw = .ok v ∧ Read.ProdosT.read d4.raw = .ok v4 ∧
-      stepOk prodosParams v (.delete (upper name)) (match res with | .ok _ => true | .error _ => false) v4 = true := by
+      stepOk prodosParams v (.delete (upper name)) (match res with | .ok _ => true | .error _ => false) v4 = true ∧
+      v4.label = v.label := by
   have hn := normalizePath_simple (volName (hdrOf d.raw)) name hne hns hl (volName_len _)
   have hun : upper name ≠ [] := by
     intro h; apply hne; unfold upper at h; exact List.map_eq_nil_iff.mp h
   have := delete_refines hs name (upper name) hn hun (notVol_simple _ name hne hns)
   rw [upper_upper] at this
   exact this
+
+/-! ## `lock`, `unlock`, `retype`, `rename` in the `SInv` framework; histories; corollaries for C02–C05, C19 -/
+
+/-- **`lock(path)` refines the abstract `lock`** (C02, C03, C19): from either buffer state, every outcome, `Inv` preserved -/
+theorem prodos_lock_refines_inv {d : Disk} (hs : SInv d) (path nm : Bytes)
+    (hnodes : normalizePath (volName (hdrOf d.raw)) path = .ok [volName (hdrOf d.raw), nm]) (hnm : nm ≠ []) :
+    Refines d (Fs.Prodos.lock path d) (.lock (upper nm)) := lock_refines' hs path nm hnodes hnm
+
+/-- **`unlock(path)` refines the abstract `unlock`** -/
+theorem prodos_unlock_refines_inv {d : Disk} (hs : SInv d) (path nm : Bytes)
+    (hnodes : normalizePath (volName (hdrOf d.raw)) path = .ok [volName (hdrOf d.raw), nm]) (hnm : nm ≠ []) :
+    Refines d (Fs.Prodos.unlock path d) (.unlock (upper nm)) := unlock_refines' hs path nm hnodes hnm
+
+/-- **`retype(path, type, aux)` refines the abstract `retype`**, including the refused type string / sub-type -/
+theorem prodos_retype_refines_inv {d : Disk} (hs : SInv d) (path nm : Bytes) (newType aux : Option Nat)
+    (hnodes : normalizePath (volName (hdrOf d.raw)) path = .ok [volName (hdrOf d.raw), nm]) (hnm : nm ≠ [])
+    (htb : ∀ t, newType = some t → t < 256) :
+    Refines d (Fs.Prodos.retype path newType aux d) (.retype (upper nm)) := retype_refines' hs path nm newType aux hnodes hnm htb
+
+/-- **`rename(path, newName)` refines the abstract `rename`** (C02, C03, C05, C19): refused — and nothing changed — for an
+invalid new name (`SYNTAX`), a new name some entry of the volume directory already has (`DUPLICATE FILENAME`), a missing
+source (`PATH NOT FOUND`), a source whose rename bit is clear (`WRITE PROTECTED`); otherwise the record gets the upper-cased
+new name and keeps content, length, blocks, protection; every other record is identical -/
+theorem prodos_rename_refines {d : Disk} (hs : SInv d) (path nm newName : Bytes)
+    (hnodes : normalizePath (volName (hdrOf d.raw)) path = .ok [volName (hdrOf d.raw), nm]) (hnm : nm ≠ [])
+    (hnv : NotVol (volName (hdrOf d.raw)) path) :
+    Refines d (Fs.Prodos.rename path newName d) (.rename (upper nm) (upper newName)) := rename_refines' hs path nm newName hnodes hnm hnv
+
+/-- **the converse search correspondence** (C05): a valid name that `search_entries` does not find in the volume directory
+(among all storage types) is a name the reader does not list -/
+theorem prodos_unfound_is_unlisted {r : Raw} (hinv : Inv r) (v : Vol) (fsL : List Read.ProdosT.LRec) (ch : List Nat)
+    (hread : Read.ProdosT.read r = .ok v) (htree : Read.ProdosT.readTree r (hdrTotal r) = .ok (fsL, ch)) (nn : Bytes)
+    (hv : isNameValid nn = true) (hnone : (dirSlots r 2 ch).find? (isHit allTypes nn) = none) : upper nn ∉ v.paths :=
+  path_not_listed hinv v fsL ch hread htree nn hv hnone
+
+/-- **Refinement, one step** (volume-directory operations `delete`, `rename`, `lock`, `unlock`, `retype`) -/
+theorem prodos_step_refines {d : Disk} (hs : SInv d) (op : VOp) (hroot : op.Root (volName (hdrOf d.raw))) :
+    SInv (op.exec d).2 ∧
+    stepOk prodosParams (volOf d.raw) (op.abs (volName (hdrOf d.raw))) (op.exec d).1 (volOf (op.exec d).2.raw) = true ∧
+    volName (hdrOf (op.exec d).2.raw) = volName (hdrOf d.raw) := step_refines hs op hroot
+
+/-- **Refinement, histories**: every history of volume-directory operations from an `SInv` state is a valid trace of the
+abstract specification, ends in an `SInv` state, and its final reading is the reading of the final image -/
+theorem prodos_history_refines (ops : List VOp) (d : Disk) (hs : SInv d) (hroot : ∀ op ∈ ops, op.Root (volName (hdrOf d.raw))) :
+    validFrom prodosParams (volOf d.raw) (trace (volName (hdrOf d.raw)) d ops) ∧ SInv (finalDisk d ops) ∧
+    finalVol (volOf d.raw) (trace (volName (hdrOf d.raw)) d ops) = volOf (finalDisk d ops).raw := history_refines ops d hs hroot
+
+/-- C02 for the concrete model: a file that no operation of the history names is found identical (content, length, type,
+flags, blocks) in the reading of the final image -/
+theorem prodos_bystanders_survive (ops : List VOp) (d : Disk) (hs : SInv d) (hroot : ∀ op ∈ ops, op.Root (volName (hdrOf d.raw)))
+    {q : Bytes} {g : FileRec} (hg : (volOf d.raw).lookup q = some g) (hd : g.isDir = false)
+    (hq : ∀ op ∈ ops, q ∉ (op.abs (volName (hdrOf d.raw))).targets) :
+    (volOf (finalDisk d ops).raw).lookup q = some g := by
+  obtain ⟨hv, _, heq⟩ := history_refines ops d hs hroot
+  have := C02.bystanders_survive_history hv (fun s hs' => by
+    obtain ⟨op, ho, e⟩ := mem_trace hs'
+    rw [e]; exact hq op ho) hg hd
+  rw [heq] at this
+  exact this
+
+/-- C03 for the concrete model: the image after **every** step of every history, successful or refused, is read by the
+total reader as a well-formed volume, and satisfies `Inv` at the end -/
+theorem prodos_states_well_formed (ops : List VOp) (d : Disk) (hs : SInv d) (hroot : ∀ op ∈ ops, op.Root (volName (hdrOf d.raw))) :
+    (∀ s ∈ trace (volName (hdrOf d.raw)) d ops, s.post.wfB = true) ∧ Inv (finalDisk d ops).raw := by
+  obtain ⟨hv, hfin, _⟩ := history_refines ops d hs hroot
+  exact ⟨C03.every_state_well_formed hv, hfin.inv⟩
+
+/-- C04 for the concrete model: after every history `free + owned + system = size` in the reading of the final image -/
+theorem prodos_free_accounting (ops : List VOp) (d : Disk) (hs : SInv d) (hroot : ∀ op ∈ ops, op.Root (volName (hdrOf d.raw))) :
+    (volOf (finalDisk d ops).raw).free + (volOf (finalDisk d ops).raw).allOwned.length + (volOf (finalDisk d ops).raw).sys.length =
+      (volOf (finalDisk d ops).raw).hi - (volOf (finalDisk d ops).raw).lo := by
+  obtain ⟨_, hfin, _⟩ := history_refines ops d hs hroot
+  obtain ⟨v, fsL, ch, hr, ht, _⟩ := hfin.ctx
+  obtain ⟨hw, hn, _, hv, _, _, _, hchf, _, h6, h3, hbt, _⟩ := root_chain_facts hfin.inv v fsL ch hr ht
+  rw [volOf_eq hr]
+  apply C04.free_accounting hw hn
+  intro u hu
+  rw [hv] at hu ⊢
+  simp only [List.mem_append, List.mem_cons, List.mem_map, List.mem_range, List.not_mem_nil, or_false] at hu
+  simp only
+  rcases hu with ((rfl | rfl) | hc) | ⟨k, hk, rfl⟩
+  · omega
+  · omega
+  · exact ⟨Nat.zero_le _, (hchf u hc).1⟩
+  · omega
+
+/-- C05 for the concrete model: the names the reader lists after a history are the fold of the history over the initial
+listing, and they are pairwise different -/
+theorem prodos_listing_is_history_fold (ops : List VOp) (d : Disk) (hs : SInv d) (hroot : ∀ op ∈ ops, op.Root (volName (hdrOf d.raw)))
+    (q : Bytes) :
+    (q ∈ (volOf (finalDisk d ops).raw).paths ↔ q ∈ foldPaths (volOf d.raw).paths (trace (volName (hdrOf d.raw)) d ops)) ∧
+    (volOf (finalDisk d ops).raw).paths.Nodup := by
+  obtain ⟨hv, hfin, heq⟩ := history_refines ops d hs hroot
+  have := C05.listing_is_history_fold' hv q
+  rw [heq] at this
+  obtain ⟨v, hr, hw, _⟩ := inv_reading hfin.inv
+  exact ⟨this, by rw [volOf_eq hr]; exact wfB_paths_nodup hw⟩
+
+/-- C19 for the concrete model: a protected file survives every history in which nobody locks, unlocks or retypes it —
+identical content, length, type, flags and blocks at the end — and every delete or rename attempted on it was refused -/
+theorem prodos_locked_file_survives (ops : List VOp) (d : Disk) (hs : SInv d) (hroot : ∀ op ∈ ops, op.Root (volName (hdrOf d.raw)))
+    {q : Bytes} {g : FileRec} (hg : (volOf d.raw).lookup q = some g) (hl : g.locked = true) (hd : g.isDir = false)
+    (hop : ∀ op ∈ ops, op.abs (volName (hdrOf d.raw)) ≠ .lock q ∧ op.abs (volName (hdrOf d.raw)) ≠ .unlock q ∧
+      op.abs (volName (hdrOf d.raw)) ≠ .retype q) :
+    (volOf (finalDisk d ops).raw).lookup q = some g ∧
+    ∀ s ∈ trace (volName (hdrOf d.raw)) d ops, (s.op = .delete q ∨ ∃ r, s.op = .rename q r) → s.ok = false := by
+  obtain ⟨hv, _, heq⟩ := history_refines ops d hs hroot
+  have hop' : ∀ s ∈ trace (volName (hdrOf d.raw)) d ops, s.op ≠ .lock q ∧ s.op ≠ .unlock q ∧ s.op ≠ .retype q := by
+    intro s hs'
+    obtain ⟨op, ho, e⟩ := mem_trace hs'
+    rw [e]; exact hop op ho
+  have h1 := C19.protected_file_survives hv hg hl hd hop'
+  rw [heq] at h1
+  refine ⟨h1, fun s hs' hatt => ?_⟩
+  apply C19.attempts_on_protected_file_refused hv hg hl hd hop' s hs'
+  rcases hatt with h | ⟨r, h⟩
+  · exact Or.inl h
+  · exact Or.inr (Or.inl ⟨r, h⟩)
 
 end A2Verif.FsProdos
